@@ -22,6 +22,7 @@ type scenario struct {
 	// crash injection: before the crashAt-th primitive step (send/timeout/pump
 	// call, 1-based) node crashNode is crashed and restarted; 0 = never
 	stepNo, crashAt, crashNode int
+	hold map[int]bool // nodes whose block-manager requests are NOT completed automatically
 }
 
 func (sc *scenario) tick() {
@@ -71,6 +72,9 @@ func (sc *scenario) pump(i int) {
 }
 
 func (sc *scenario) pumpQuiet(i int) {
+	if sc.hold[i] {
+		return
+	}
 	for sc.nodes[i].complete(0) {
 		sc.collect(i)
 		sc.note(i, gEvent{Kind: "complete", K: 0, Ev: "complete bm request #0"})
@@ -234,4 +238,15 @@ func scenarioLateCommit(x *explorer) *scenario {
 		}
 	}
 	return sc
+}
+
+// late runs the callback of node i's k-th cancelled-but-dispatched block-manager request.
+func (sc *scenario) late(i, k int) {
+	sc.tick()
+	if sc.nodes[i].completeLate(k) {
+		sc.collect(i)
+		sc.note(i, gEvent{Kind: "late", K: k, Ev: fmt.Sprintf("late callback of cancelled bm request #%d", k)})
+	} else {
+		sc.log = append(sc.log, fmt.Sprintf("V%d: (no cancelled request pending)", i))
+	}
 }
